@@ -57,7 +57,9 @@ Offer(w) ==
 OfferGone(w) == /\ work[w] = "new" /\ sess = "gone" /\ work' = [work EXCEPT ![w] = "closed"]
                 /\ UNCHANGED <<pool, poolClosed, sess, reqSent, burstDone, user, held, tries, getCalls>>
 
-UserArrive(u) == /\ user[u] = "idle" /\ sess # "gone"
+\* A user connection the listener accepted just before the proxy was closed may still be handled after the session is
+\* gone: it then finds the pool closed and is closed at once (GetClosed).
+UserArrive(u) == /\ user[u] = "idle"
                  /\ user' = [user EXCEPT ![u] = "getting"]
                  /\ UNCHANGED <<pool, poolClosed, sess, reqSent, burstDone, work, held, tries, getCalls>>
 
